@@ -113,7 +113,10 @@ def r4(ctx, facts, model):
         rej = []
         for x in xs:
             if x is not None:
-                rej += [e["false_edge"][1] for e in alive.guard_edges(b, x)]
+                # (only tests that GUARD a death: a death is reachable from the true edge within the same iteration.  An always-true
+                # `debug_assert!(!self.is_alive(entity))` after the death - benign C02-s1 - continues on its false edge and rejects nothing)
+                rej += [e["false_edge"][1] for e in alive.guard_edges(b, x)
+                        if any(dbb in b.reachable(e["true_edge"][1], stop=[nbb]) for dbb in dblocks)]
         for i, (rbb, rt) in enumerate(model.recycle_sites(b)):
             key = "%s recycle #%d" % (b.path, i)
             deps = set()
